@@ -1624,7 +1624,8 @@ func c05build(v c05vec) *description.Session {
 		if ids {
 			m.ID = [4]string{"", "a", "video", strings.Repeat("Media", 12)}[c] + strconv.Itoa(j)
 		}
-		m.IsBackChannel = c05bit(v, 2) && nm > 1 && j == nm-1
+		// one back channel among several medias, at any position (first, middle, last)
+		m.IsBackChannel = c05bit(v, 2) && nm > 1 && j == (v.V/3+v.P/8)%nm
 		if savp && j%2 == 0 {
 			m.Profile = headers.TransportProfileSAVP
 			if !c05bit(v, 4) {
